@@ -282,11 +282,11 @@ theorem build_prune : ∀ (a : A) (inh : Inh) (c : CN), wfA a = true →
               simp only [keepAll, hany, Bool.not_true, Bool.and_false, Bool.false_eq_true, if_false, epure,
                 Except.ok.injEq] at h
               subst h
-              by_cases hfa : f { kind := .choice, name := n, cfg := i.cfg, st := i.st, flag := mand, dflt := some dc } = true
+              by_cases hfa : f { kind := .choice, name := n, cfg := i.cfg, st := i.st, flag := mand, dflt := some dc, ns := m.ns } = true
               · have hall : ∀ k ∈ ks, f k.attr = true := by
                   intro k hk'
                   have := cases_cfg keepAll env i cases ks hwc hk k hk'
-                  rw [hf k.attr { kind := .choice, name := n, cfg := i.cfg, st := i.st, flag := mand, dflt := some dc } this]
+                  rw [hf k.attr { kind := .choice, name := n, cfg := i.cfg, st := i.st, flag := mand, dflt := some dc, ns := m.ns } this]
                   exact hfa
                 have := any_pruneKids_of_all f (fun k => decide (k.attr.name = dc)) (by intro c; simp [prune_attr]) ks hall
                 simp only [hfa, this, hany, Bool.not_true, Bool.and_false, Bool.false_eq_true, if_false, epure, prune]
